@@ -9,7 +9,7 @@ import (
 var intEncs = []string{"I8", "I16", "I32", "I64"}
 
 // encoders whose values render unambiguously in String()
-var renderEncs = []string{"I8", "I16", "I32", "I64", "U16", "U32", "U64", "Int"}
+var renderEncs = []string{"I8", "I16", "I32", "I64", "U16", "U32", "U64", "Int", "OptU16"}
 
 func TestC01(t *testing.T) {
 	runProp(t, "C01", checkC01, func(t *rapid.T) *Case {
